@@ -57,6 +57,19 @@ func corpus() []Replay {
 
 var all3 = []int{0, 1, 2}
 
+// limitCorpus: GetJournals with a limit of exactly / one below / one above the number of partitions the
+// condition selects (a cursor uses 50): exactly `limit` is served, `limit`+1 is refused with the
+// last partition already in the result, and everything is released
+func limitCorpus() []Replay {
+	return []Replay{
+		{Kind: "corpus", Pre: 2, Progs: [][]Proc{{query(both, 2, -1)}}, Picks: []int{0, 0, 0, 0}},
+		{Kind: "corpus", Pre: 3, Progs: [][]Proc{{query(all3, 3, -1), query(all3, 2, -1), query(all3, 4, -1)}}, Picks: []int{0, 0, 0, 0, 0, 0, 0, 0, 0, 0, 0, 0}},
+		{Kind: "corpus", Pre: 1, Progs: [][]Proc{{query([]int{0}, 1, -1)}}, Picks: []int{0, 0, 0}},
+		// ... with a deleter around: whatever was acquired by the refused visit is released
+		{Kind: "corpus", Pre: 3, Progs: [][]Proc{{query(all3, 2, -1)}, {trunc(all3, all3, nil, false, -1)}}, Picks: []int{0, 1, 0, 1, 0, 1, 0, 1}},
+	}
+}
+
 // genRecreate: the family "a partition of a waiting visit's snapshot is deleted and its tag line
 // re-created (new source id) while the visit is under way".  Actor 0 is the waiting visit (Visit
 // without VF_SKIP_IF_LOCKED or GetJournals), actor 1 the deleter (Truncate), then the writers.
